@@ -11,7 +11,8 @@ pub fn main<C: Codec>() {
     let code = match args[1].as_str() {
         "fuzzone" => {
             // run one libFuzzer input (entropy tape) through a fuzz target: verif fuzzone <Cnn:name> <file>
-            let data = std::fs::read(args.get(3).map(|s| s.as_str()).unwrap_or("")).unwrap_or_default();
+            let data =
+                std::fs::read(args.get(3).map(|s| s.as_str()).unwrap_or("")).unwrap_or_default();
             super::fuzz::run::<C>(&args[2], &data);
             println!("fuzzone: no violation");
             0
